@@ -19,7 +19,7 @@ ASSUMPTIONS = [
     "CaseValue under a scn(..)[0] switch is emitted as CaseScenario (documented in switch_block.py)",
     "programs whose reference machine has an op-free cycle are excluded (counted)",
 ]
-N_RANDOM = {"quick": 90, "thorough": 2500}  # per shard
+N_RANDOM = {"quick": 260, "thorough": 2500}  # per shard
 NSHARDS = {"quick": 15, "thorough": 16}
 
 
